@@ -150,8 +150,16 @@ Q q_equal3() { T* a = sym(LN); T* b = sym(LN); bool e = std::equal(a, a + LN, b 
 Q q_equal4()
 {
     T* a = sym(LN); T* b = sym(LM);
-    VF_KNOWN(C06_equal4_nonrandom_length, IT != 0 && LN != LM);
     bool e = std::equal(a, a + LN, b, b + LM COMMA_E); vf_assert(k_equal4(a, LN, b, LM) == e, "equal(first1,last1,first2,last2) == std"); sp_ok();
+}
+// second range of symbolic length m2 <= LM in an exact-size block (all LM candidate elements are drawn first)
+static T* sym_upto(unsigned m2) { T* all = sym(LM); T* p = (T*)vf_alloc((uint64_t)m2 * sizeof(T)); for (unsigned i = 0; i < LM; i++) if (i < m2) p[i] = all[i]; return p; }
+Q q_equal4_symlen()
+{
+    T* a = sym(LN); unsigned m2 = vf_nd_u32(); vf_assume(m2 <= LM); T* b = sym_upto(m2);
+    VF_KNOWN(C06_equal4_nonrandom_length, IT != 0 && m2 != LN);
+    if (m2 == LN) vf_witness("equal4 same length");
+    bool e = std::equal(a, a + LN, b, b + m2 COMMA_E); vf_assert(k_equal4(a, LN, b, (int)m2) == e, "equal(first1,last1,first2,last2) == std (second length symbolic)"); sp_ok();
 }
 Q q_mismatch3()
 {
@@ -166,7 +174,14 @@ Q q_mismatch4()
 Q q_lexicographical_compare() { T* a = sym(LN); T* b = sym(LM); bool e = std::lexicographical_compare(a, a + LN, b, b + LM COMMA_C); vf_assert(k_lexicographical_compare(a, LN, b, LM) == e, "lexicographical_compare == std"); sp_ok(); }
 Q q_search() { T* a = sym(LN); T* b = sym(LM); long e = std::search(sf(a), sf(a + LN), sf(b), sf(b + LM) COMMA_E).p - a; if (LM <= LN && e != LN) vf_witness("search found"); vf_assert(k_search(a, LN, b, LM) == e, "search == std"); }
 Q q_search_searcher() { T* a = sym(LN); T* b = sym(LM); long e = std::search(sf(a), sf(a + LN), std::default_searcher(sf(b), sf(b + LM))).p - a; vf_assert(k_search_searcher(a, LN, b, LM) == e, "search(default_searcher) == std"); }
-Q q_find_end() { T* a = sym(LN); T* b = sym(LM); long e = std::find_end(sb(a), sb(a + LN), sb(b), sb(b + LM) COMMA_E).p - a; vf_assert(k_find_end(a, LN, b, LM) == e, "find_end == std"); }
+// oracle: libstdc++ find_end through a bidirectional view (reverse search) for needles up to 2, through a forward view (repeated
+// search) for longer ones - the cheaper encoding in each case, same specification
+#if LM <= 2
+#define FE_IT sb
+#else
+#define FE_IT sf
+#endif
+Q q_find_end() { T* a = sym(LN); T* b = sym(LM); long e = std::find_end(FE_IT(a), FE_IT(a + LN), FE_IT(b), FE_IT(b + LM) COMMA_E).p - a; vf_assert(k_find_end(a, LN, b, LM) == e, "find_end == std"); }
 Q q_find_first_of() { T* a = sym(LN); T* b = sym(LM); long e = std::find_first_of(a, a + LN, b, b + LM COMMA_E) - a; vf_assert(k_find_first_of(a, LN, b, LM) == e, "find_first_of == std"); sp_ok(); }
 Q q_includes() { T* a = sym(LN); T* b = sym(LM); SORTED(a, LN); SORTED(b, LM); bool e = std::includes(a, a + LN, b, b + LM COMMA_C); vf_assert(k_includes(a, LN, b, LM) == e, "includes == std"); sp_ok(); }
 #if CMP == 0
@@ -174,8 +189,13 @@ Q q_is_permutation3() { T* a = sym(LN); T* b = sym(LN); bool e = std::is_permuta
 Q q_is_permutation4()
 {
     T* a = sym(LN); T* b = sym(LM);
-    VF_KNOWN(C06_is_permutation4_nonrandom_length, IT != 0 && LN != LM);
     bool e = std::is_permutation(sf(a), sf(a + LN), sf(b), sf(b + LM)); vf_assert(k_is_permutation4(a, LN, b, LM) == e, "is_permutation(4) == std");
+}
+Q q_is_permutation4_symlen()
+{
+    T* a = sym(LN); unsigned m2 = vf_nd_u32(); vf_assume(m2 <= LM); T* b = sym_upto(m2);
+    VF_KNOWN(C06_is_permutation4_nonrandom_length, IT != 0 && m2 != LN);
+    bool e = std::is_permutation(sf(a), sf(a + LN), sf(b), sf(b + m2)); vf_assert(k_is_permutation4(a, LN, b, (int)m2) == e, "is_permutation(4) == std (second length symbolic)");
 }
 #endif
 
